@@ -41,6 +41,9 @@ def run(ctx) -> None:
     ctx.rule("R2", "split / join with the one separator detected for the file; never empty")
     ctx.rule("R3", "only the matched span of a matched line is replaced")
     ctx.rule("R4", "who may write: write sites == whitelist; written path == configured path that was read")
+    ctx.rule("R5", "prerequisite: replacements never overlap - matches are enumerated completely and an overlapping later match is suppressed (C03/R3), spans applied right to left (C03/R1)")
+    from sa.report import run_prerequisite
+    run_prerequisite(ctx, "C03", ("R1", "R3"), "R5")
 
     # ---------------------------------------------------------------- R1
     reach = effects.reachable_functions(["cli.update"])
@@ -74,6 +77,16 @@ def run(ctx) -> None:
                       f"`{unparse(call)[:90]}` falls back to the locale's encoding: non-ASCII text is corrupted or the run fails under LC_ALL=C",
                       loc=fn.loc(call))
             if in_rewrite:
+                err = _kw(call, "errors")
+                ctx.check("R1", err is None or const_str(err) == "strict", f"{fq} L{call.lineno}: open(mode={mode!r}) decodes / encodes strictly",
+                          f"{fq}: a file of the rewrite path is opened with a lenient error handler (mode {mode!r})",
+                          f"`{unparse(call)[:100]}`: bytes that are not valid UTF-8 are read as surrogates (or replaced) and pass validation, but the strict write raises after the file was "
+                          f"truncated (or the replaced bytes are written back): bytes outside the matched span are lost", loc=fn.loc(call), witness={"file": "LICENSE with a latin-1 copyright sign"})
+                if any(c_ in mode for c_ in "wax+"):
+                    ctx.check("R1", "w" in mode and "+" not in mode, f"{fq} L{call.lineno}: the file is written with mode 'w' (truncated to the new content)",
+                              f"{fq}: a rewritten file is not truncated to its new content (mode {mode!r})",
+                              f"`{unparse(call)[:100]}`: when the new content is shorter than the old one, the tail of the old content stays behind", loc=fn.loc(call),
+                              witness={"old": "version 1.2.3-beta\n", "new": "version 1.2.3\n"})
                 n_rw += 1
                 nl = _kw(call, "newline")
                 ok_nl = isinstance(nl, ast.Constant) and nl.value == ""
